@@ -100,7 +100,7 @@ package webdav
 //@ func webdav.(LocalFileSystem).Open(fs, ctx, name) (f, err)
 //@   requires R1: served(fs) && !strHostPath(name)
 //@   ensures O1: err == nil <==> validName(name) && !absent(lnode(name))
-//@   ensures O2: err == nil ==> f != nil
+//@   ensures O2: err == nil ==> f != nil && dynIs(f, "*os.File") && !readerFails(f) && readerContent(f) == contentOf(data, lnode(name))
 //@   ensures O3: !validName(name) ==> httpCode(err) == 400 && !hostPath(err)
 //@ func webdav.(LocalFileSystem).Mkdir(fs, ctx, name) (err)
 //@   requires R1: served(fs) && !strHostPath(name)
@@ -179,7 +179,7 @@ package webdav
 //@   ensures V8: validName(src) && validName(dst) && old(!absent(lnode(src)) && !disjoint(lnode(src), lnode(dst))) ==> httpCode(err) == 403
 //@   ensures V9: validName(src) && validName(dst) && old(!absent(lnode(src)) && disjoint(lnode(src), lnode(dst)) && !absent(lnode(dst))) && options.NoOverwrite ==> httpCode(err) == 412
 //@   ensures V10: validName(src) && validName(dst) && old(!absent(lnode(src)) && disjoint(lnode(src), lnode(dst)) && absent(lnode(dst)) && !isDir(parent(lnode(dst)))) ==> httpCode(err) == 409
-//@   ensures V11: err != nil ==> !created && !hostPath(err)
+//@   ensures V11: err != nil ==> !created && !hostPath(err) && !osIsExist(err)
 //@   ensures WF: wfTree()
 //@ func webdav.copyRegularFile(src, dst, perm) (err)
 //@   requires R1: confined(src) && confined(dst) && isFile(node(src))
@@ -247,3 +247,111 @@ package webdav
 //@   ensures Z6: validName(name) && absent(lnode(name)) ==> httpCode(err) == 404
 //@   ensures Z7: err != nil ==> !hostPath(err)
 //@   ensures Z8: tree == old(tree) && data == old(data)
+
+//@ -- ---------------------------------------------------------------------------------------
+//@ -- The HTTP face of the file server (C01, C02, C03, C04, C17): backend methods over the FileSystem interface.
+//@ -- The contracts proved for LocalFileSystem are the contracts of the interface methods for a LocalFileSystem receiver.
+//@ implements webdav.FileSystem by webdav.(LocalFileSystem) recv fs as dynVal(fs, "LocalFileSystem") when dynIs(fs, "LocalFileSystem")
+//@ spec servedB(b *backend) bool = b != nil && dynIs(b.FileSystem, "LocalFileSystem") && served(dynVal(b.FileSystem, "LocalFileSystem"))
+//@ spec hdr(r *http.Request, k string) string = hget(hv, r.Header, k)
+//@ spec reqOK(r *http.Request) bool = validReq(r) && !strHostPath(r.URL.Path)
+//@ -- status of a refused request, 0 when it is accepted
+//@ spec putCode(name string, im string, inm string) int = !validName(name) ? 400 : (isDir(lnode(name)) ? 405 : (!condOK(im, inm, putTag(lnode(name))) ? condCode(im, inm, putTag(lnode(name)))
+//@   | : (!isDir(parent(lnode(name))) ? 409 : 0)))
+//@ spec delCode(name string, im string, inm string) int = !validName(name) ? 400 : (absent(lnode(name)) ? 404 : (!condOK(im, inm, tagOf(lnode(name))) ? condCode(im, inm, tagOf(lnode(name))) : 0))
+//@ spec mkcolCode(name string, ctype string) int = ctype != "" ? 415 : (!validName(name) ? 400 : (!absent(lnode(name)) ? 405 : (!isDir(parent(lnode(name))) ? 409 : 0)))
+//@ spec copyMoveCode(src string, dst string, noOverwrite bool) int = (!validName(src) || !validName(dst)) ? 400 : (absent(lnode(src)) ? 404 : (!disjoint(lnode(src), lnode(dst)) ? 403
+//@   | : ((!absent(lnode(dst)) && noOverwrite) ? 412 : ((absent(lnode(dst)) && !isDir(parent(lnode(dst)))) ? 409 : 0))))
+//@ func webdav.(*backend).Delete(b, r) (err)
+//@   requires R1: servedB(b) && reqOK(r)
+//@   assigns ghost:tree
+//@   ensures B1: err == nil <==> old(delCode(r.URL.Path, hdr(r, "If-Match"), hdr(r, "If-None-Match"))) == 0
+//@   ensures B2: err == nil ==> (forall m $P :: kindOf(tree, m) == (anc(lnode(r.URL.Path), m) ? 0 : kindOf(old(tree), m))) && data == old(data)
+//@   ensures B3: err != nil ==> tree == old(tree) && data == old(data) && !hostPath(err) && httpCode(err) == old(delCode(r.URL.Path, hdr(r, "If-Match"), hdr(r, "If-None-Match")))
+//@   ensures WF: wfTree()
+//@ func webdav.(*backend).Mkcol(b, r) (err)
+//@   requires R1: servedB(b) && reqOK(r)
+//@   assigns ghost:tree
+//@   ensures B1: err == nil <==> old(mkcolCode(r.URL.Path, hdr(r, "Content-Type"))) == 0
+//@   ensures B2: err == nil ==> tree == setKind(old(tree), lnode(r.URL.Path), 2) && data == old(data)
+//@   ensures B3: err != nil ==> tree == old(tree) && data == old(data) && !hostPath(err) && httpCode(err) == old(mkcolCode(r.URL.Path, hdr(r, "Content-Type")))
+//@   ensures WF: wfTree()
+//@ func webdav.(*backend).Put(b, w, r) (err)
+//@   requires R1: servedB(b) && reqOK(r) && w != nil && wstatus(w) == 0
+//@   allocates
+//@   assigns ghost:tree, ghost:data, ghost:fhNode, ghost:rstatus, ghost:hv
+//@   ensures B1: err == nil <==> old(putCode(r.URL.Path, hdr(r, "If-Match"), hdr(r, "If-None-Match"))) == 0 && !readerFails(r.Body)
+//@   ensures B2: err == nil ==> wstatus(w) == (old(absent(lnode(r.URL.Path))) ? 201 : 204)
+//@   -- C04: the tag announced is the tag of the stored resource
+//@   ensures B3: err == nil ==> hget(hv, respHeader(w), "ETag") == quote(tagOf(lnode(r.URL.Path)))
+//@   ensures B4: err == nil ==> tree == setKind(old(tree), lnode(r.URL.Path), 1) && contentOf(data, lnode(r.URL.Path)) == readerContent(r.Body)
+//@   |   && (forall m $P :: m != lnode(r.URL.Path) ==> contentOf(data, m) == contentOf(old(data), m))
+//@   ensures B5: err != nil ==> wstatus(w) == 0 && !hostPath(err)
+//@   ensures B6: err != nil && old(putCode(r.URL.Path, hdr(r, "If-Match"), hdr(r, "If-None-Match"))) != 0 ==> httpCode(err) == old(putCode(r.URL.Path, hdr(r, "If-Match"), hdr(r, "If-None-Match")))
+//@   |   && tree == old(tree) && data == old(data)
+//@   ensures B7: err != nil && old(absent(lnode(r.URL.Path))) ==> tree == old(tree) && (forall m $P :: isFile(m) ==> contentOf(data, m) == contentOf(old(data), m))
+//@   ensures WF: wfTree()
+//@ func webdav.(*backend).Copy(b, r, dest, recursive, overwrite) (created, err)
+//@   requires R1: servedB(b) && reqOK(r) && dest != nil && !strHostPath(dest.Path)
+//@   allocates
+//@   assigns ghost:tree, ghost:data, ghost:fhNode
+//@   ensures B1: err == nil <==> old(copyMoveCode(r.URL.Path, dest.Path, !overwrite)) == 0
+//@   ensures B2: err == nil ==> created == old(absent(lnode(dest.Path)))
+//@   ensures B3: err == nil ==> (forall m $P :: kindOf(tree, m) == (anc(lnode(dest.Path), m) ? ((m == lnode(dest.Path) || recursive) ? kindOf(old(tree), graft(lnode(r.URL.Path), lnode(dest.Path), m)) : 0) : kindOf(old(tree), m)))
+//@   ensures B4: err == nil ==> (forall m $P :: anc(lnode(dest.Path), m) ==> contentOf(data, m) == contentOf(old(data), graft(lnode(r.URL.Path), lnode(dest.Path), m)))
+//@   |   && (forall m $P :: !anc(lnode(dest.Path), m) ==> contentOf(data, m) == contentOf(old(data), m))
+//@   ensures B5: err != nil ==> !created && tree == old(tree) && data == old(data) && !hostPath(err) && httpCode(err) == old(copyMoveCode(r.URL.Path, dest.Path, !overwrite))
+//@   ensures WF: wfTree()
+//@ func webdav.(*backend).Move(b, r, dest, overwrite) (created, err)
+//@   requires R1: servedB(b) && reqOK(r) && dest != nil && !strHostPath(dest.Path)
+//@   assigns ghost:tree, ghost:data
+//@   ensures B1: err == nil <==> old(copyMoveCode(r.URL.Path, dest.Path, !overwrite)) == 0
+//@   ensures B2: err == nil ==> created == old(absent(lnode(dest.Path)))
+//@   ensures B3: err == nil ==> (forall m $P :: kindOf(tree, m) == (anc(lnode(r.URL.Path), m) ? 0 : (anc(lnode(dest.Path), m) ? kindOf(old(tree), graft(lnode(r.URL.Path), lnode(dest.Path), m)) : kindOf(old(tree), m))))
+//@   ensures B4: err == nil ==> (forall m $P :: anc(lnode(dest.Path), m) ==> contentOf(data, m) == contentOf(old(data), graft(lnode(r.URL.Path), lnode(dest.Path), m)))
+//@   |   && (forall m $P :: !anc(lnode(dest.Path), m) ==> contentOf(data, m) == contentOf(old(data), m))
+//@   ensures B5: err != nil ==> !created && tree == old(tree) && data == old(data) && !hostPath(err) && httpCode(err) == old(copyMoveCode(r.URL.Path, dest.Path, !overwrite))
+//@   ensures WF: wfTree()
+//@ func webdav.(*backend).HeadGet(b, w, r) (err)
+//@   requires R1: servedB(b) && reqOK(r) && w != nil && wstatus(w) == 0
+//@   allocates
+//@   assigns ghost:rstatus, ghost:hv, ghost:fhNode, ghost:wbody
+//@   ensures G1: err == nil <==> validName(r.URL.Path) && !absent(lnode(r.URL.Path)) && !isDir(lnode(r.URL.Path))
+//@   ensures G2: err == nil ==> wstatus(w) != 0 && (plainGet(r) ==> wstatus(w) == 200)
+//@   -- C04: the tag announced is the tag of the stored resource; C01: the body is the stored content
+//@   ensures G3: err == nil ==> hget(hv, respHeader(w), "ETag") == quote(tagOf(lnode(r.URL.Path)))
+//@   ensures G4: err == nil && wstatus(w) == 200 && r.Method != "HEAD" ==> smt("int", "(select $0 $1)", wbody, w) == contentOf(data, lnode(r.URL.Path))
+//@   ensures G5: err != nil ==> wstatus(w) == 0 && !hostPath(err) && httpCode(err) == (!validName(r.URL.Path) ? 400 : (absent(lnode(r.URL.Path)) ? 404 : 405))
+//@   ensures G6: tree == old(tree) && data == old(data)
+//@ func webdav.(*backend).Options(b, r) (caps, allow, err)
+//@   requires R1: servedB(b) && reqOK(r)
+//@   ensures P1: err == nil <==> validName(r.URL.Path)
+//@   ensures P2: err == nil ==> len(caps) == 0 && len(allow) == (absent(lnode(r.URL.Path)) ? 3 : (isDir(lnode(r.URL.Path)) ? 5 : 8)) && allow[0] == "OPTIONS"
+//@   ensures P3: err == nil && absent(lnode(r.URL.Path)) ==> allow[1] == "PUT" && allow[2] == "MKCOL"
+//@   ensures P4: err == nil && !absent(lnode(r.URL.Path)) ==> allow[1] == "DELETE" && allow[2] == "PROPFIND" && allow[3] == "COPY" && allow[4] == "MOVE"
+//@   ensures P5: err == nil && !absent(lnode(r.URL.Path)) && !isDir(lnode(r.URL.Path)) ==> allow[5] == "HEAD" && allow[6] == "GET" && allow[7] == "PUT"
+//@   ensures P6: err != nil ==> httpCode(err) == 400 && !hostPath(err)
+//@   ensures P7: tree == old(tree) && data == old(data)
+//@ func webdav.(*backend).propFindFile(b, propfind, fi) (resp, err)
+//@   requires R1: propfind != nil && fi != nil
+//@   ensures F1: err == nil ==> resp != nil && fresh(resp) && len(resp.Hrefs) == 1 && resp.Hrefs[0].Path == fi.Path && resp.Status == nil
+//@   ensures F2: err == nil <==> propfind.PropName != nil || propfind.AllProp != nil || propfind.Prop != nil
+//@   ensures F3: err != nil ==> resp == nil && httpCode(err) == 400 && !hostPath(err)
+//@ spec formOK(pf *internal.PropFind) bool = pf.PropName != nil || pf.AllProp != nil || pf.Prop != nil
+//@ func webdav.(*backend).PropFind(b, r, propfind, depth) (ms, err)
+//@   requires R1: servedB(b) && reqOK(r) && propfind != nil
+//@   allocates
+//@   assigns ghost:rdC, ghost:rdIdx
+//@   ensures Q1: err == nil <==> validName(r.URL.Path) && !absent(lnode(r.URL.Path)) && formOK(propfind)
+//@   ensures Q2: err == nil && (depth == internal.DepthZero || !isDir(lnode(r.URL.Path))) ==> ms != nil && len(ms.Responses) == 1 && len(ms.Responses[0].Hrefs) == 1 && ms.Responses[0].Hrefs[0].Path == r.URL.Path
+//@   -- Depth 1 / infinity on a collection: one response per resource in scope, each once, under a path that addresses it (C01, C03, C11)
+//@   ensures Q3: err == nil && depth != internal.DepthZero && isDir(lnode(r.URL.Path)) ==> ms != nil && (forall i int :: 0 <= i && i < len(ms.Responses) ==> len(ms.Responses[i].Hrefs) == 1
+//@   |   && validName(ms.Responses[i].Hrefs[0].Path) && lnode(ms.Responses[i].Hrefs[0].Path) == rdNode(i) && inScope(lnode(r.URL.Path), rdNode(i), depth == internal.DepthInfinity))
+//@   ensures Q4: err == nil && depth != internal.DepthZero && isDir(lnode(r.URL.Path)) ==> (forall m $P :: inScope(lnode(r.URL.Path), m, depth == internal.DepthInfinity) ==>
+//@   |   0 <= smt("int", "(select $0 $1)", rdIdx, m) && smt("int", "(select $0 $1)", rdIdx, m) < len(ms.Responses) && rdNode(smt("int", "(select $0 $1)", rdIdx, m)) == m)
+//@   |   && (forall i int, j int :: 0 <= i && i < j && j < len(ms.Responses) ==> rdNode(i) != rdNode(j))
+//@   ensures Q5: err != nil ==> ms == nil && !hostPath(err) && httpCode(err) == (!validName(r.URL.Path) ? 400 : (absent(lnode(r.URL.Path)) ? 404 : 400))
+//@   ensures Q6: tree == old(tree) && data == old(data)
+//@   loop 1 invariant I1: len(resps) == len(children) && fresh(resps) && formOK(propfind) == old(formOK(propfind))
+//@   loop 1 invariant I2: forall j int :: 0 <= j && j < #i ==> len(resps[j].Hrefs) == 1 && resps[j].Hrefs[0].Path == children[j].Path
+//@   loop 1 invariant I3: #i > 0 ==> formOK(propfind)
